@@ -629,7 +629,8 @@ static void do_parse(const J &cmd, W &w) {
     ctx.query = cmd.geti("query", 1) != 0;
     ctx.ws = cmd.geti("ws", 0) != 0; ctx.syntax = cmd.geti("syntax", 0) != 0;
     if (ctx.ws) opts->whitespace_callback = h_ws;
-    if (ctx.syntax) { opts->keyword_callback = h_kw; opts->dataname_callback = h_dn; }
+    // syntax: 1 both syntax callbacks, 2 the data-name callback alone, 3 the keyword callback alone
+    if (ctx.syntax) { long m = (long) cmd.geti("syntax", 0); if (m != 2) opts->keyword_callback = h_kw; if (m != 3) opts->dataname_callback = h_dn; }
     std::string ecb = cmd.gets("errors", "accept");   // accept | die | null | script
     if (ecb == "accept") { opts->error_callback = h_error; ctx.edefault = 0; }
     else if (ecb == "reject") { opts->error_callback = h_error; ctx.edefault = -7; }
